@@ -34,6 +34,9 @@ SeqS = z3.SeqSort(Struct)
 CANON = z3.Union(z3.Re(z3.StringVal('0')),
                  z3.Concat(z3.Range('1', '9'), z3.Star(z3.Range('0', '9'))))
 NHASH = z3.Function('nodehash', Struct, z3.IntSort())
+# number of nodes of a tree (only used to state: a child is smaller than its
+# parent, hence never structurally equal to it)
+SIZE = z3.Function('treesize', Struct, z3.IntSort())
 
 LAZY_ID_BASE = 10**9
 
@@ -77,8 +80,10 @@ class STuple:
         k = self.start + i
         if k not in cache:
             name = f"{self.owner.tag['name']}.{k}"
-            cache[k] = lazy_node(eng, cur(), name,
-                                 sterm=self.kids_term()[k])
+            child = self.kids_term()[k]
+            cache[k] = lazy_node(eng, cur(), name, sterm=child)
+            cur().assume(z3.And(SIZE(child) >= 1,
+                                SIZE(child) < SIZE(S(self.owner))))
         return cache[k]
 
     def __repr__(self):
